@@ -15,6 +15,11 @@ macro_rules! format { ($($t:tt)*) => { crate::opaque_string() } }
 macro_rules! trace { ($($t:tt)*) => { () } }
 macro_rules! assert_eq { ($a:expr, $b:expr) => { if !($a == $b) { crate::vpanic() } } }
 macro_rules! assert { ($a:expr) => { if !($a) { crate::vpanic() } } }
+// log facade at debug level or above: every argument must be *public* (C17); see prelude/deps_auth.rs
+macro_rules! debug { ($fmt:expr $(, $arg:expr)* $(,)?) => { { $( crate::log_arg(&$arg); )* } } }
+macro_rules! info { ($fmt:expr $(, $arg:expr)* $(,)?) => { { $( crate::log_arg(&$arg); )* } } }
+macro_rules! warn { ($fmt:expr $(, $arg:expr)* $(,)?) => { { $( crate::log_arg(&$arg); )* } } }
+macro_rules! error { ($fmt:expr $(, $arg:expr)* $(,)?) => { { $( crate::log_arg(&$arg); )* } } }
 macro_rules! panic { ($($t:tt)*) => { crate::vpanic() } }
 
 verus! {
